@@ -1,4 +1,5 @@
 import BtcModel.Redact
+import BtcModel.DbCrypt
 /-!
 # C16 — Public views and default exports never contain private key material
 
@@ -64,5 +65,139 @@ theorem F12_witness : publicView clearedByPublicF12 (runK false initPrivate [.wi
 
 /-- and without any prior call the old public view was clean — the defect needs the history -/
 example : publicView clearedByPublicF12 (runK false initPrivate []) = [] := by decide
+
+/-! ## Database field encryption (`db.py`: `_get_encryption_key`, `EncryptedBinary`, `EncryptedString`)
+
+"Switched on" = a key or a password is supplied in the environment (`switchedOn`).  The cipher and
+the password hash are parameters: the theorems hold for every `kdf`, `enc`, `dec`; the round trips
+assume only `dec k (enc k p) = some p`. -/
+section DbCrypt
+variable (kdf : Bytes → Bytes) (enc : Bytes → Bytes → Bytes) (dec : Bytes → Bytes → Option Bytes)
+
+/-- a key is selected exactly when field encryption is switched on -/
+theorem selKey_isSome_iff (c : CryptCfg) : (selKey kdf c).isSome = switchedOn c := by
+  unfold selKey switchedOn
+  cases hk : envSet c.keyEnv <;> cases hp : envSet c.pwEnv <;> simp
+  · cases h : c.pwEnv with
+    | none => simp [h, envSet] at hp
+    | some b => simp
+  · cases h : c.keyEnv with
+    | none => simp [h, envSet] at hk
+    | some b => simp
+  · cases h : c.keyEnv with
+    | none => simp [h, envSet] at hk
+    | some b => simp
+
+
+private theorem passThrough_on (c : CryptCfg) (h : switchedOn c = true) (v : PyVal) (hv : v ≠ .none) :
+    passThrough kdf c v = false := by
+  have hs : (selKey kdf c).isSome = true := by rw [selKey_isSome_iff]; exact h
+  have hn : (selKey kdf c).isNone = false := by
+    cases hh : selKey kdf c <;> simp_all
+  unfold passThrough
+  unfold switchedOn at h
+  rw [hn, h]
+  cases v <;> simp_all
+
+private theorem passThrough_off (c : CryptCfg) (h : switchedOn c = false) (v : PyVal) :
+    passThrough kdf c v = true := by
+  unfold passThrough
+  unfold switchedOn at h
+  rw [h]; simp
+
+/-- `DB_FIELD_ENCRYPTION_KEY` wins over `DB_FIELD_ENCRYPTION_PASSWORD` -/
+theorem selKey_key_wins (c : CryptCfg) (h : envSet c.keyEnv = true) : selKey kdf c = c.keyEnv := by
+  simp [selKey, h]
+
+/-- with a password only, the key is the hash of the password -/
+theorem selKey_password (c : CryptCfg) (h : envSet c.keyEnv = false) (hp : envSet c.pwEnv = true) :
+    selKey kdf c = c.pwEnv.map kdf := by
+  simp [selKey, h, hp]
+
+/-- **No plaintext in an encrypted column.**  With field encryption switched on, whatever is written
+to a `private` (binary) or `wif` (text) column is the cipher's output under the selected key — for
+every value, never the value itself.  (Text handed to the *binary* column is refused by the cipher,
+`TypeError`: nothing is written.) -/
+theorem bind_encrypts (c : CryptCfg) (h : switchedOn c = true) (v : PyVal) (hv : v ≠ .none) :
+    ∃ k, selKey kdf c = some k ∧ strBind kdf enc c v = .val (.bytes (enc k v.payload)) ∧
+      (∀ b, v = .bytes b → binBind kdf enc c v = .val (.bytes (enc k b))) ∧
+      (∀ t, v = .str t → binBind kdf enc c v = .cipherErr) := by
+  have hs : (selKey kdf c).isSome = true := by rw [selKey_isSome_iff]; exact h
+  obtain ⟨k, hk⟩ := Option.isSome_iff_exists.mp hs
+  refine ⟨k, hk, ?_, ?_, ?_⟩
+  · simp [strBind, passThrough_on kdf c h v hv, hk]
+  · intro b hb; subst hb; simp [binBind, passThrough_on kdf c h _ hv, hk, PyVal.payload]
+  · intro t ht; subst ht; simp [binBind, passThrough_on kdf c h _ hv, hk]
+
+/-- `None` stays `None` (a key row without private part) -/
+theorem bind_none (c : CryptCfg) : binBind kdf enc c .none = .val .none ∧ strBind kdf enc c .none = .val .none := by
+  simp [binBind, strBind, passThrough]
+
+/-- what was written to a binary column is read back unchanged, with or without encryption -/
+theorem bin_roundtrip (hdec : ∀ k p, dec k (enc k p) = some p) (c : CryptCfg) (b : Bytes) :
+    binResult kdf dec c (binBind kdf enc c (.bytes b)).stored = .val (.bytes b) := by
+  cases hon : switchedOn c
+  · have hpt : ∀ v, passThrough kdf c v = true := passThrough_off kdf c hon
+    simp [binBind, binResult, hpt, ColRes.stored]
+  · obtain ⟨k, hk, _, hb, _⟩ := bind_encrypts kdf enc c hon (.bytes b) (by simp)
+    have hpt : passThrough kdf c (.bytes (enc k b)) = false := passThrough_on kdf c hon _ (by simp)
+    rw [hb b rfl]
+    simp [binResult, PyVal.payload, hpt, hk, hdec, ColRes.stored]
+
+/-- what was written to a text column is read back unchanged, with or without encryption -/
+theorem str_roundtrip (hdec : ∀ k p, dec k (enc k p) = some p) (c : CryptCfg) (s : Bytes) :
+    strResult kdf dec c (strBind kdf enc c (.str s)).stored = .val (.str s) := by
+  cases hon : switchedOn c
+  · have hpt : ∀ v, passThrough kdf c v = true := passThrough_off kdf c hon
+    simp [strBind, strResult, hpt, ColRes.stored]
+  · obtain ⟨k, hk, hb, _⟩ := bind_encrypts kdf enc c hon (.str s) (by simp)
+    have hpt : passThrough kdf c (.bytes (enc k s)) = false := passThrough_on kdf c hon _ (by simp)
+    rw [hb]
+    simp [strResult, PyVal.payload, hpt, hk, hdec, ColRes.stored]
+
+/-- a text column written while a key was configured is refused, not returned as if it were the
+text, when the database is opened without key -/
+theorem str_read_without_key (c c' : CryptCfg) (h : switchedOn c = true) (h' : switchedOn c' = false) (s : Bytes) :
+    strResult kdf dec c' (strBind kdf enc c (.str s)).stored = .raises := by
+  obtain ⟨k, _, hb, _⟩ := bind_encrypts kdf enc c h (.str s) (by simp)
+  have hpt : ∀ v, passThrough kdf c' v = true := passThrough_off kdf c' h'
+  rw [hb]; simp [strResult, hpt, ColRes.stored]
+
+/-- reading with another key: whatever the cipher refuses is refused (no value is made up) -/
+theorem wrong_key_refused (c c' : CryptCfg) (h : switchedOn c = true) (h' : switchedOn c' = true) (v : PyVal) (hv : v ≠ .none)
+    (hauth : ∀ k k' p, selKey kdf c = some k → selKey kdf c' = some k' → k ≠ k' → dec k' (enc k p) = none)
+    (hne : selKey kdf c ≠ selKey kdf c') :
+    (∀ b, v = .bytes b → binResult kdf dec c' (binBind kdf enc c v).stored = .cipherErr) ∧
+      strResult kdf dec c' (strBind kdf enc c v).stored = .cipherErr := by
+  obtain ⟨k, hk, hs, hb, _⟩ := bind_encrypts kdf enc c h v hv
+  have hs' : (selKey kdf c').isSome = true := by rw [selKey_isSome_iff]; exact h'
+  obtain ⟨k', hk'⟩ := Option.isSome_iff_exists.mp hs'
+  have hkk : k ≠ k' := by intro e; apply hne; rw [hk, hk', e]
+  have hpt : ∀ p, passThrough kdf c' (.bytes (enc k p)) = false := fun p => passThrough_on kdf c' h' _ (by simp)
+  have hp : ∀ p, (PyVal.bytes (enc k p)).payload = enc k p := fun _ => rfl
+  constructor
+  · intro b hvb
+    rw [hb b hvb]
+    simp only [ColRes.stored, binResult, hpt, hk', hp, hauth k k' b hk hk' hkk]
+    simp
+  · rw [hs]
+    simp only [ColRes.stored, strResult, hpt, hk', hp, hauth k k' v.payload hk hk' hkk]
+    simp
+
+/-- the `database_encryption_enabled` switch of config.ini alone encrypts nothing: values are stored
+as they are and the only effect is the warning (documented: the key has to be in the environment) -/
+theorem enabled_without_key (c : CryptCfg) (h : switchedOn c = false) (v : PyVal) :
+    binBind kdf enc c v = .val v ∧ strBind kdf enc c v = .val v ∧ warns c = c.enabled := by
+  have hpt : passThrough kdf c v = true := passThrough_off kdf c h v
+  refine ⟨by simp [binBind, hpt], by simp [strBind, hpt], ?_⟩
+  unfold warns switchedOn at *; simp_all
+
+/-- the hypotheses are satisfiable: a key, a password, both (the key wins), neither -/
+example : switchedOn ⟨false, some [1, 2], none⟩ = true ∧ switchedOn ⟨false, none, some [3]⟩ = true ∧
+    selKey (fun p => p ++ p) ⟨false, some [1, 2], some [3]⟩ = some [1, 2] ∧
+    selKey (fun p => p ++ p) ⟨false, some [], some [3]⟩ = some [3, 3] ∧
+    switchedOn ⟨true, some [], none⟩ = false := by decide
+
+end DbCrypt
 
 end Btc.C16
